@@ -652,6 +652,11 @@ func Match(m Outcome, o Obs) string {
 			return fmt.Sprintf("top-%d.%s", d, cl)
 		}
 	}
+	if m.Signal && o.Signal && o.Popped == nil && !o.PoppedNil {
+		// The operation signalled termination by panicking: a Go call that
+		// panics returns nothing, so the popped context cannot be observed.
+		return ""
+	}
 	if m.PoppedNil != o.PoppedNil || (m.Popped == nil) != (o.Popped == nil) {
 		return "popped"
 	}
